@@ -15,6 +15,7 @@ TReset   == IsEv("Reset") /\ obj' = [o \in Ids |-> None] /\ nxt' = 0 /\ hnd' = [
             /\ snap' = [p \in Procs |-> {}] /\ stale' = [p \in Procs |-> {}] /\ calls' = NCalls /\ out' = Out("none", 0, 0, {})
 TCreate  == IsEv("Create") /\ MCreate(E.p, E.priv, E.tok) /\ E.rv = "OK" /\ E.o = out'.o
 TSet     == IsEv("Set") /\ MSet(E.p, E.o, E.v) /\ Cls(E.rv) = out'.rv
+TBadSet  == IsEv("BadSet") /\ MBadSet(E.p, E.o) /\ (IF out'.rv = "ERR" THEN Cls(E.rv) \notin {"OK", "INV"} ELSE Cls(E.rv) = out'.rv)
 TGet     == IsEv("Get") /\ MGet(E.p, E.o) /\ Cls(E.rv) = out'.rv /\ (E.rv = "OK" => E.lab = out'.lab /\ E.same)
 TDestroy == IsEv("Destroy") /\ MDestroy(E.p, E.o) /\ Cls(E.rv) = out'.rv
 \* found exactly the visible matching objects, each once, with their current values
@@ -25,7 +26,7 @@ TFresh   == IsEv("Fresh") /\ E.rv = "OK" /\ Found = {<<o, obj[o].lab>> : o \in L
             /\ E.unreadable = 0 /\ UNCHANGED vars
 
 TInit == Init /\ l = 1 /\ TLCSet(1, 1)
-TNext == TReset \/ TCreate \/ TSet \/ TGet \/ TDestroy \/ TFind \/ TFresh
+TNext == TReset \/ TCreate \/ TSet \/ TBadSet \/ TGet \/ TDestroy \/ TFind \/ TFresh
 TSpec == TInit /\ [][TNext]_tvars
 TrackMax == IF l > TLCGet(1) THEN TLCSet(1, l) ELSE TRUE
 TraceAccepted == PrintT(<<"MAXL", TLCGet(1)>>)
